@@ -158,7 +158,13 @@ func (s *c04state) epoch(depth int, si selImage, path []string) {
 	// (b)+(c): run the recovering Open and a further session on CrashFS
 	rec0 := core.Recoveries()
 	p := histParams{NOps: 10 + c.Rng.Intn(40), Reopen: true, Writers: true, LiveCheck: true, SyncPct: 4, CompactPct: 18, WindowBudget: 4, Scenarios: depth == 2}
+	if c.Case%2 == 1 {
+		// as in C03: one failing record append now and then, here in sessions that started with a recovery
+		core.HBFaults = true
+		p.FaultyWritePct = 5
+	}
 	hb, err := genHistory(c, c.Rng, si.im, si.adm, s.cfg, s.ks, p, &s.valIdx)
+	core.HBFaults = false
 	if err != nil {
 		data := map[string]interface{}{}
 		if hb != nil {
